@@ -308,7 +308,7 @@ impl FromIterator<Attribute> for Attributes {
 }
 impl Attributes {
     pub fn doc(&self, path: &ItemPath) -> anyhow::Result<Option<String>> {
-        let mut doc = None;
+        let mut doc: Option<String> = None;
         for attr in &self.0 {
             let Some((key, value)) = attr.assign() else {
                 continue;
@@ -321,11 +321,14 @@ impl Attributes {
                 anyhow::bail!("doc attribute for `{path}` must be a string literal");
             };
 
-            let doc = doc.get_or_insert_with(String::new);
-            if !doc.is_empty() {
-                doc.push('\n');
+            // Not `if !doc.is_empty()`: that loses an empty first line.
+            match &mut doc {
+                Some(doc) => {
+                    doc.push('\n');
+                    doc.push_str(value);
+                }
+                None => doc = Some(value.to_string()),
             }
-            doc.push_str(value);
         }
         Ok(doc)
     }
